@@ -10,6 +10,6 @@ Extraction "c07.ml"
   Model.Pax.activate_gb Model.Pax.activate_gb_orig
   Model.Dispatch.receive Model.Dispatch.dispatch
   Model.SnepHdr.snep_serve Model.SnepHdr.client_step Model.SnepHdr.ho_serve Model.SnepHdr.hc_step
-  Model.DepAny.i_exchange Model.DepAny.t_exchange
+  Model.DepAny.i_exchange Model.DepAny.t_exchange Model.DepAny.t_deactivate
   Model.Pdu.decode.
 Cd "../../coq".
